@@ -10,23 +10,44 @@ let show_err = function
   | OutOfFuel -> "out-of-fuel"
   | Ok _ -> "ok"
 
+let kind_of = function
+  | "T" -> KStore true | "F" -> KStore false | "V" -> KView
+  | "i32" -> KNum { t_signed = true; t_bits = n_of_int 32 } | "u8" -> KNum { t_signed = false; t_bits = n_of_int 8 }
+  | "u16" -> KNum { t_signed = false; t_bits = n_of_int 16 } | _ -> KNum { t_signed = true; t_bits = n_of_int 64 }
+let has_arg_of = function "T" | "F" -> false | _ -> true
+
 let body lines =
   let tbl = ref [] in
+  let kinds = ref [] in
   let stopped = ref false in
   List.iter (fun l ->
     if not !stopped then
     match words l with
-    | ["opt"; h; a] -> tbl := !tbl @ [(unhex h, a = "1")]
+    | ["opt"; h; a] -> tbl := !tbl @ [(unhex h, a = "1")]; kinds := !kinds @ [KCustom]
+    | ["ropt"; h; k] -> tbl := !tbl @ [(unhex h, has_arg_of k)]; kinds := !kinds @ [kind_of k]
     | "parse" :: _ | ["parsenull"] ->
       let (nul, cl) = (match words l with ["parse"; h] -> (false, unhex h) | _ -> (true, [])) in
-      let (r, items) = run_cmdline !tbl cl nul in
+      let ((r, items), tgs) = run_cmdline_targets !tbl !kinds cl nul in
+      let custom idx = (match List.nth_opt !kinds (int_of_nat idx) with Some KCustom -> true | _ -> false) in
       List.iter (function
         | IRead _ -> ()
-        | IApply (idx, VNull) -> Printf.printf "apply %d null\n" (int_of_nat idx - 0)
+        | IApply (idx, _) when not (custom idx) -> ()
+        | IApply (idx, VNull) -> Printf.printf "apply %d null\n" (int_of_nat idx)
         | IApply (idx, V (b, off, len)) ->
           if int_of_nat b = 0 then Printf.printf "apply %d %s %s\n" (int_of_nat idx) (string_of_n off) (string_of_n len)
           else Printf.printf "apply %d outside\n" (int_of_nat idx)) items;
-      (match r with Ok _ -> print_string "ok\n" | e -> print_string (show_err e ^ "\n"); stopped := true)
+      (match r with
+       | Ok _ ->
+         print_string "ok\n";
+         List.iteri (fun i t -> match t with
+           | TCustom -> ()
+           | TBool b -> Printf.printf "t %d b %d\n" i (if b then 1 else 0)
+           | TView VNull -> Printf.printf "t %d v null\n" i
+           | TView (V (b, off, len)) ->
+             if int_of_nat b = 0 then Printf.printf "t %d v %s %s\n" i (string_of_n off) (string_of_n len)
+             else Printf.printf "t %d v outside\n" i
+           | TNum n -> Printf.printf "t %d n %s\n" i (string_of_n n)) tgs
+       | e -> print_string (show_err e ^ "\n"); stopped := true)
     | _ -> print_string ("?? " ^ l ^ "\n")) lines
 
 let () = run_cases body
